@@ -106,11 +106,18 @@ func (o onlyOpen) Open(name string) (fs.File, error) { return o.f.Open(name) }
 // character class) and free of escapes (afero.Glob follows path/filepath, where the backslash
 // is not a metacharacter of hasMeta)
 func c15GlobComparable(pat string) bool {
-	if !fs.ValidPath(pat) || strings.Contains(pat, `\`) {
+	if !fs.ValidPath(pat) {
 		return false
 	}
-	for _, e := range strings.Split(pat, "/") {
+	es := strings.Split(pat, "/")
+	for i, e := range es {
 		if _, err := path.Match(e, ""); err != nil {
+			return false
+		}
+		// an escape is interpreted wherever the element is matched against a listing, which is the case as soon as
+		// the pattern up to and including that element has one of * ? [ (otherwise afero.Glob, like the
+		// path/filepath it follows, takes the prefix literally)
+		if strings.Contains(e, `\`) && !strings.ContainsAny(strings.Join(es[:i+1], "/"), "*?[") {
 			return false
 		}
 	}
@@ -1015,7 +1022,9 @@ func c15Header(stack string, t *c15Tree, r *corr.Rand) []string {
 var c15Patterns = []string{"*", "*/*", "a/*", "*.txt", "a/*.txt", "?", "??", "[a-c]*", "a/b/*/z*", "a/[ab]", "*/*/*", "a/b/c/*.dat", "e/*/*/*",
 	"nonexist/*", "a", "a/b", "a/b/y.txt", "top.txt", ".", "zz", "a/*/c", "*a*", "[^a]*", "a/x.tx[s-u]",
 	"[", "a/[", "[]", "[a-", "a/b/[]", "nonexist/[]", "*/[", "[a-]", "[-a]", `\`, `a\`, "[]a]", "a[", `[\`,
-	`a\a`, `[\a]a`, "a/", "/a", "./a", "a//a", "../a", "a/./a", ""}
+	`a\a`, `[\a]a`, "a/", "/a", "./a", "a//a", "../a", "a/./a", "",
+	// escapes in elements that are matched against a listing; literal elements below a wildcard
+	`*/x\.txt`, `*/\x.txt`, `a/?/\y.txt`, `*/*/\y\.txt`, `*/\b`, `[a]/\x.txt`, `*/b/y.txt`, `*/b`, `?/b/c`, `*/nope`, `*/x\*`, `a/*/\c/z.txt`, "*/.", "a/*/.."}
 
 func c15Exhaustive(tier string) []corr.Case {
 	h := corr.HexS
